@@ -8,7 +8,7 @@ import random
 
 import z3
 
-from vlib import circ, circgen, symeval
+from vlib import circ, circgen, forkexec, symeval
 from vlib.symeval import SymState, lift, zb
 from checks.common import REPLAY_PRELUDE
 
@@ -52,65 +52,84 @@ def operator_lemma(p, item, tier, seed):
     t = TYPES[tname]
     A = [tv_var(f"a{i}") for i in range(k)]
     B = [tv_var(f"b{i}") for i in range(k)]
-    ra, rb = lift(t.operator(*A)), lift(t.operator(*B))
     pre = [refines(a, b) for a, b in zip(A, B)]
     total = [defined(a) for a in A]
-    p.case(("oplemma3", tname, k), sample=f"{tname}/{k}: A ⊑ A' ∧ op(A) defined ⇒ op(A') = op(A); A total ⇒ op(A) defined")
-    r, m = p.check(pre + [mono_violation(ra, rb)], label=f"mono {tname}/{k}")
-    r2, m2 = p.check(total + [zb(ra.u)], label=f"total {tname}/{k}")
-    if r == "sat" or r2 == "sat":
-        mm = m if r == "sat" else m2
-        av = [symeval.state_value(mm, a) for a in A]
-        bv = [symeval.state_value(mm, b) for b in B] if r == "sat" else av
-        p.violation(
-            f"operator3:{tname}:arity{k}",
-            f"{tname}: op({[conc(x) for x in av]}) vs refinement op({[conc(x) for x in bv]}) breaks soundness/monotonicity/totality",
-            REPLAY_PRELUDE + "from cirbo.core.circuit import gate as G\n"
-            f"A=[{', '.join(conc(x) for x in av)}]\nB=[{', '.join(conc(x) for x in bv)}]\n"
-            f"ra=G.{tname}.operator(*A); rb=G.{tname}.operator(*B)\nprint(ra, rb)\n"
-            "total=all(x!=Undefined for x in A)\n"
-            "bad=(ra!=Undefined and (rb==Undefined or rb is not ra)) or (total and ra==Undefined)\n"
-            "sys.exit(1 if bad else 0)\n",
-        )
-    else:
+    # one path normally; if the operator branches on its operands every feasible branch is explored
+    paths, stats = forkexec.explore(lambda: (lift(t.operator(*A)), lift(t.operator(*B))), catch=(Exception,), max_paths=20000)
+    p.case(("oplemma3", tname, k), sample=f"{tname}/{k}: A ⊑ A' ∧ op(A) defined ⇒ op(A') = op(A); A total ⇒ op(A) defined ({stats['paths']} path(s))")
+    if not stats["covered"]:
+        p.error(f"operator {tname}/{k}: path coverage not proven")
+    for path in paths:
+        pc = path.cond()
+        if path.exc is not None:
+            r, m = p.check([pc], label=f"raise {tname}/{k}")
+            r2, m2 = "unsat", None
+        else:
+            ra, rb = path.result
+            r, m = p.check(pre + [pc, mono_violation(ra, rb)], label=f"mono {tname}/{k}")
+            r2, m2 = p.check(total + [pc, zb(ra.u)], label=f"total {tname}/{k}")
+        if r == "sat" or r2 == "sat":
+            mm = m if r == "sat" else m2
+            av = [symeval.state_value(mm, a) for a in A]
+            bv = [symeval.state_value(mm, b) for b in B] if r == "sat" else av
+            p.violation(
+                f"operator3:{tname}:arity{k}",
+                f"{tname}: op({[conc(x) for x in av]}) vs refinement op({[conc(x) for x in bv]}) breaks soundness/monotonicity/totality",
+                REPLAY_PRELUDE + "from cirbo.core.circuit import gate as G\n"
+                f"A=[{', '.join(conc(x) for x in av)}]\nB=[{', '.join(conc(x) for x in bv)}]\n"
+                f"try:\n    ra=G.{tname}.operator(*A); rb=G.{tname}.operator(*B)\nexcept Exception as e:\n    print(repr(e)); sys.exit(1)\nprint(ra, rb)\n"
+                "total=all(x!=Undefined for x in A)\n"
+                "bad=(ra!=Undefined and (rb==Undefined or rb is not ra)) or (total and ra==Undefined)\n"
+                "sys.exit(1 if bad else 0)\n",
+            )
+            return
+    if len(paths) == 1 and paths[0].exc is None and t not in circgen.CONST and k > 0:
         # canary: the converse (A' defined ⇒ A equal) must be refutable for non-constant operators
-        if t not in circgen.CONST and k > 0:
-            r3, _ = p.check(pre + [mono_violation(rb, ra)], label="canary")
-            p.canary(r3 == "sat")
+        ra, rb = paths[0].result
+        r3, _ = p.check(pre + [mono_violation(rb, ra)], label="canary")
+        p.canary(r3 == "sat")
 
 
-def _circuit_queries(p, name, c, extra_constraints=(), describe=None, rebuild=None):
+def _circuit_queries(p, name, c, extra_constraints=(), describe=None, rebuild=None, build_src=None):
     """Soundness/monotonicity/totality of the three entry points on circuit c."""
     A = {lab: tv_var(f"A{i}") for i, lab in enumerate(c.inputs)}
     B = {lab: tv_var(f"B{i}") for i, lab in enumerate(c.inputs)}
     pre = list(extra_constraints) + [refines(A[l], B[l]) for l in c.inputs]
-    dis, tot = [], []
-    results = {}
-    for entry in ("evaluate_full_circuit", "evaluate_circuit", "evaluate_circuit_outputs"):
-        fa = getattr(c, entry)(dict(A))
-        fb = getattr(c, entry)(dict(B))
-        results[entry] = (fa, fb)
-        for lab in fa:
-            va, vb = fa[lab], fb.get(lab, Undefined)
-            unreached = entry == "evaluate_circuit" and isinstance(va, _Undefined) and lab not in c.inputs
-            if unreached:
-                continue  # documented: part unreachable from outputs stays Undefined
-            dis.append((entry, lab, mono_violation(va, vb)))
-            tot.append((entry, lab, zb(lift(va).u)))
-        if entry == "evaluate_circuit_outputs" and set(fa) != set(c.outputs):
-            dis.append((entry + ":keys", None, z3.BoolVal(True)))
-    # unassigned inputs default to Undefined: dropping a key == passing Undefined
-    for drop in c.inputs[:3]:
-        A2 = {l: (A[l] if l != drop else SymState(False, True)) for l in c.inputs}
-        A3 = {l: A[l] for l in c.inputs if l != drop}
-        f2, f3 = c.evaluate_full_circuit(dict(A2)), c.evaluate_full_circuit(dict(A3))
-        l2, l3 = c.evaluate_circuit(dict(A2)), c.evaluate_circuit(dict(A3))
-        for lab in c.gates:
-            for x, y, nm in ((f2, f3, "evaluate_full_circuit"), (l2, l3, "evaluate_circuit")):
-                if lab not in x or lab not in y:
-                    dis.append((nm + ":default-undefined:keys", lab, z3.BoolVal(True)))
-                else:
-                    dis.append((nm + ":default-undefined", lab, symeval.states_differ(x[lab], y[lab])))
+    def build():
+        dis, tot = [], []
+        for entry in ("evaluate_full_circuit", "evaluate_circuit", "evaluate_circuit_outputs"):
+            fa = getattr(c, entry)(dict(A))
+            fb = getattr(c, entry)(dict(B))
+            for lab in fa:
+                va, vb = fa[lab], fb.get(lab, Undefined)
+                unreached = entry == "evaluate_circuit" and isinstance(va, _Undefined) and lab not in c.inputs
+                if unreached:
+                    continue  # documented: part unreachable from outputs stays Undefined
+                dis.append((entry, lab, mono_violation(va, vb)))
+                tot.append((entry, lab, zb(lift(va).u)))
+            if entry == "evaluate_circuit_outputs" and set(fa) != set(c.outputs):
+                dis.append((entry + ":keys", None, z3.BoolVal(True)))
+        # unassigned inputs default to Undefined: dropping a key == passing Undefined
+        for drop in c.inputs[:3]:
+            A2 = {l: (A[l] if l != drop else SymState(False, True)) for l in c.inputs}
+            A3 = {l: A[l] for l in c.inputs if l != drop}
+            f2, f3 = c.evaluate_full_circuit(dict(A2)), c.evaluate_full_circuit(dict(A3))
+            l2, l3 = c.evaluate_circuit(dict(A2)), c.evaluate_circuit(dict(A3))
+            for lab in c.gates:
+                for x, y, nm in ((f2, f3, "evaluate_full_circuit"), (l2, l3, "evaluate_circuit")):
+                    if lab not in x or lab not in y:
+                        dis.append((nm + ":default-undefined:keys", lab, z3.BoolVal(True)))
+                    else:
+                        dis.append((nm + ":default-undefined", lab, symeval.states_differ(x[lab], y[lab])))
+        return dis, tot
+
+    paths, stats = forkexec.explore(build, catch=(), max_paths=512)
+    if len(paths) == 1:
+        dis, tot = paths[0].result
+    else:
+        p.count('circuits_evaluated_on_several_paths')
+        dis = [(d[0], d[1], z3.And(pp.cond(), d[2])) for pp in paths for d in pp.result[0]]
+        tot = [(d[0], d[1], z3.And(pp.cond(), d[2])) for pp in paths for d in pp.result[1]]
     p.case(("c15", describe or circ.snapshot(c)[:3]), sample=f"{name}: {describe or circ.describe(c)}")
     r, m = p.check(pre + [z3.Or(*[d[2] for d in dis])], label=f"mono {name}")
     kind = "monotone"
@@ -126,7 +145,7 @@ def _circuit_queries(p, name, c, extra_constraints=(), describe=None, rebuild=No
         p.violation(
             f"partial:{kind}:{bad[0][0].split(':')[0] if bad else '?'}:{name.split('[')[0]}",
             f"{kind} violated at {bad[:2]} for {circ.describe(cc)} with A={ {k: conc(v) for k, v in av.items()} } A'={ {k: conc(v) for k, v in bv.items()} }",
-            REPLAY_PRELUDE + circ.circ_src(cc)
+            REPLAY_PRELUDE + (build_src or circ.circ_src(cc))
             + "\nA={" + ", ".join(f"{k!r}: {conc(v)}" for k, v in av.items()) + "}\n"
             + "B={" + ", ".join(f"{k!r}: {conc(v)}" for k, v in bv.items()) + "}\n"
             + "bad=[]\n"
@@ -186,7 +205,15 @@ def systematic(p, item, tier, seed):
 
 def concrete(p, item, tier, seed):
     kind, arg = item
-    if kind == "feature":
+    if kind == "history":
+        from checks.c01 import history_circuit
+
+        rnd = random.Random(arg)
+        for i in range(25 if tier == "quick" else 80):
+            c, src = history_circuit(rnd, f"{arg}:{i}")
+            if c is not None and 0 < len(c.inputs) <= 5:
+                _circuit_queries(p, f"history[{arg}:{i}]", c, build_src=src)
+    elif kind == "feature":
         for name, c in circgen.feature_circuits():
             _circuit_queries(p, "feature:" + name, c)
     else:
@@ -226,6 +253,8 @@ def run(rep, tier, seed, only=None):
         rep.pmap(concrete, [("feature", None)])
     if sub("seeded"):
         rep.pmap(concrete, [("seeded", (seed * 977 + s, 40 if thorough else 10, 10, 5)) for s in range(32 if thorough else 16)])
+    if sub("history"):
+        rep.pmap(concrete, [("history", seed * 313 + s) for s in range(32 if thorough else 16)])
     if sub("systematic"):
         rnd = random.Random(seed)
         plan = ([(1, 3, (0, 1, 2, 3)), (2, 3, (0, 1, 2, 3)), (3, 3, (1, 2))] if thorough
